@@ -335,6 +335,56 @@ def h_prio_path(params, model=None):
     return fn
 
 
+def h_prio_related(params, model=None):
+    """'immediately' survives the completion of a related entry: a folder and a file inside it are pending together, the
+    application's prioritise function rates each path; one of them is finished (as the sync manager does after copying it);
+    the other one, if rated negative, must still be rated negative and be picked at once whatever the ageing interval"""
+    def fn():
+        e = Env(model)
+        _lab.reset()
+        clk = SymClock(e, False)
+        saved = S.time
+        S.time = clk
+        try:
+            provs = (_lab.mk_provider(False), _lab.mk_provider(False))
+            prios = {}
+
+            def prioritize(side, path):
+                k = (side, path)
+                if k not in prios:
+                    prios[k] = e.int("prio", -1, 2)
+                return prios[k]
+            st = S.SyncState(provs, prioritize=prioritize)
+            side = e.choose("side", 2)
+            order = e.choose("event_order", 2)
+            evs = [("o1", S.DIRECTORY, "/u", None), ("o2", S.FILE, "/u/f", b"h")]
+            for oid, ot, pth, hsh in (evs if order == 0 else evs[::-1]):
+                st.update(side, ot, oid, path=pth, hash=hsh, exists=True)
+            parent, child = st.lookup_oid(side, "o1"), st.lookup_oid(side, "o2")
+            first = e.choose("finished_first", 2)
+            done, other, opath = (parent, child, "/u/f") if first == 0 else (child, parent, "/u")
+            done[side].changed = 0
+            st.finished(done)
+            if (side, opath) not in prios:
+                return {"ok": False, "info": {"why": "the prioritise function was not consulted for a pending entry"}}
+            if not e.holds(z_or(prios[(side, opath)] >= 0, other.priority < 0), "immediately-survives-related-finish"):
+                return {"ok": False, "info": {"why": "an entry rated 'immediately' lost its negative priority when a related entry finished"}}
+            age = e.real("age")
+            e.assume(age >= 0)
+            r = st.change(age)
+            now = clk.reads[-1]
+            want_now = z_or(prios[(side, opath)] < 0, other[side].changed <= now - age)
+            if r is None:
+                if not e.holds(z_not(want_now), "eligible-after-related-finish"):
+                    return {"ok": False, "info": {"why": "entry rated 'immediately' (or aged) was not picked after a related entry finished"}}
+            elif r is not other:
+                return {"ok": False, "info": {"why": "change() returned an entry that is not pending"}}
+            return {"ok": True, "key": _trace_key(e), "nontrivial": True}
+        finally:
+            S.time = saved
+    return fn
+
+
 AGES = [0, 0.5, 3, 10]
 
 
@@ -429,7 +479,7 @@ def _mut_pick(params, model=None):
     return fn
 
 
-HARNESSES = {"pick": h_pick, "times": h_times, "engine": h_engine, "prio-path": h_prio_path, "pick~flipped": _mut_pick}
+HARNESSES = {"pick": h_pick, "times": h_times, "engine": h_engine, "prio-path": h_prio_path, "prio-related": h_prio_related, "pick~flipped": _mut_pick}
 
 
 def replay(harness, params, model):
@@ -462,6 +512,7 @@ def jobs(tier):
         {"harness": "pick", "params": {"N": 2 if q else 3, "both": False, "punts": True}, "label": "pick/N=%d/punts" % (2 if q else 3)},
         {"harness": "pick", "params": {"N": 2 if q else 3, "both": False, "punts": False, "age0": True, "strict": True}, "label": "age0/N=%d" % (2 if q else 3)},
         {"harness": "times", "params": {"K": 3 if q else 5}, "label": "change-times/K=%d" % (3 if q else 5)},
+        {"harness": "prio-related", "params": {}, "label": "immediately-survives-related-finish"},
         {"harness": "prio-path", "params": {"K": 2 if q else 3}, "label": "priority-follows-path/%d-moves" % (2 if q else 3), "smt_dump": 4},
         {"harness": "pick~flipped", "params": {"N": 1, "both": False, "punts": False}, "label": "pick~flipped", "role": "sens"},
     ]
